@@ -680,7 +680,7 @@ class Sim:
                 os.close(self.master)
             except OSError:
                 pass
-        shutil.rmtree(self.dir, ignore_errors=True)
+        if not os.environ.get("VERIF_KEEP"): shutil.rmtree(self.dir, ignore_errors=True)
 
 
 def crc(data):
